@@ -77,6 +77,7 @@ pub const SRC_FF: u64 = u64::MAX - 1;
 pub const SRC_EMPTY: u64 = u64::MAX - 2;
 
 fn force(g: &mut Generator, op: OpcodeKind, seed: u64) -> Result<Vec<u8>, String> {
+    tick(|| format!("forced emission of opcode 0x{:02x} with entropy source {} on stack {:?}", op.as_u8(), seed, g.verif_stack_kinds()));
     let before = g.output.len();
     let r = if seed >= SRC_EMPTY {
         let data: Vec<u8> = match seed {
